@@ -13,13 +13,15 @@ pub const OPERANDS: &[&str] = &[
     "A()", "A$()", "NOF(1)", "NOF$(1)",
     // property chains
     "A(1).F.G", "R.F.G",
+    // whole arrays in parentheses
+    "(A())", "(A$())",
 ];
 
 /// Declarations placed before every instantiated template, so that the names of
 /// the operand menu resolve to an array, a record, a function, etc.
 pub const HEADER: &str = "TYPE T\n  F AS INTEGER\n  S AS STRING * 3\nEND TYPE\nDECLARE FUNCTION F (X)\nDECLARE FUNCTION G$ (X$)\nDIM R AS T\nDIM A(5)\nDIM A$(5)\n";
 
-pub const FOOTER: &str = "END\nL1:\nRETURN\nFUNCTION F (X)\n  F = X\nEND FUNCTION\nFUNCTION G$ (X$)\n  G$ = X$\nEND FUNCTION\nSUB P (X)\nEND SUB\nSUB Q (X$, Y%)\nEND SUB\nSUB PA (X())\nEND SUB\nSUB PAS (X$())\nEND SUB\n";
+pub const FOOTER: &str = "END\nL1:\nRETURN\nFUNCTION F (X)\n  F = X\nEND FUNCTION\nFUNCTION G$ (X$)\n  G$ = X$\nEND FUNCTION\nSUB P (X)\nEND SUB\nSUB Q (X$, Y%)\nEND SUB\nSUB PA (X())\nEND SUB\nSUB PAS (X$())\nEND SUB\nSUB PAI (X%())\nEND SUB\n";
 
 /// Templates: `@` marks a slot; the default filling of each slot follows after `|`, comma separated.
 pub const TEMPLATES: &[&str] = &[
@@ -109,6 +111,7 @@ pub const TEMPLATES: &[&str] = &[
     "DIM FA(2) AS STRING * 3\nPAS @|FA()",
     "PAS @|A$()",
     "PA @|A()",
+    "PAI @|A()",
     "CALL P(@)|A",
     "CALL Q(@, @)|\"x\",1",
     "@|P",
